@@ -317,8 +317,10 @@
 #ifndef SEXP_MAXIMUM_HEAP_SIZE
 #define SEXP_MAXIMUM_HEAP_SIZE 0
 #endif
+/* the core types and globals must fit in the initial heap without a */
+/* collection (a context under construction cannot be marked) */
 #ifndef SEXP_MINIMUM_HEAP_SIZE
-#define SEXP_MINIMUM_HEAP_SIZE 8*1024
+#define SEXP_MINIMUM_HEAP_SIZE (8*1024*sizeof(void*))
 #endif
 
 /* if after GC more than this percentage of memory is still in use, */
